@@ -1,6 +1,7 @@
 package sym
 
 import (
+	"math"
 	"strconv"
 
 	"golang.org/x/tools/go/ssa"
@@ -36,6 +37,17 @@ func init() {
 	reg("(*sync.RWMutex).Unlock", lockIntrinsic("unlock"))
 	reg("(*sync.RWMutex).RLock", lockIntrinsic("rlock"))
 	reg("(*sync.RWMutex).RUnlock", lockIntrinsic("runlock"))
+	reg("(*sync.Pool).Get", func(e *Engine, st *State, args []Value, fn *ssa.Function) []Outcome {
+		// empty pool: fall back to New if set
+		p := args[0].(*PtrV)
+		pool := e.load(st, p).(*StructV)
+		newFn := pool.F[len(pool.F)-1].(*FuncV)
+		if !newFn.IsNil() {
+			return e.callValue(st, newFn, nil)
+		}
+		return one(st, &IfaceV{})
+	})
+	reg("(*sync.Pool).Put", noop)
 	reg("(*sync.Once).Do", func(e *Engine, st *State, args []Value, fn *ssa.Function) []Outcome {
 		p := args[0].(*PtrV)
 		key := "once:" + strconv.Itoa(p.Obj) + pathKey(p.Path)
@@ -133,6 +145,59 @@ func init() {
 		e.uniqueTab = append(e.uniqueTab, uniqueEnt{val: v, obj: id})
 		outs = append(outs, Outcome{st: cur, ret: &StructV{F: []Value{&PtrV{Obj: id}}}})
 		return outs
+	})
+}
+
+func init() {
+	f1 := func(f func(float64) float64) Intrinsic {
+		return func(e *Engine, st *State, args []Value, fn *ssa.Function) []Outcome {
+			x, ok := args[0].(FloatV)
+			if !ok {
+				panic(e.abort("%s on symbolic float", fn.Name()))
+			}
+			return one(st, FloatV(f(float64(x))))
+		}
+	}
+	reg("math.Floor", f1(math.Floor))
+	reg("math.Ceil", f1(math.Ceil))
+	reg("math.Trunc", f1(math.Trunc))
+	reg("math.Abs", f1(math.Abs))
+	reg("math.Sqrt", f1(math.Sqrt))
+	reg("math.Log", f1(math.Log))
+	reg("math.Log2", f1(math.Log2))
+	reg("math.Pow", func(e *Engine, st *State, args []Value, fn *ssa.Function) []Outcome {
+		x, ok1 := args[0].(FloatV)
+		y, ok2 := args[1].(FloatV)
+		if !ok1 || !ok2 {
+			panic(e.abort("math.Pow on symbolic float"))
+		}
+		return one(st, FloatV(math.Pow(float64(x), float64(y))))
+	})
+	reg("math.Float64bits", func(e *Engine, st *State, args []Value, fn *ssa.Function) []Outcome {
+		x, ok := args[0].(FloatV)
+		if !ok {
+			panic(e.abort("math.Float64bits on symbolic float"))
+		}
+		return one(st, e.tb.Const(64, math.Float64bits(float64(x))))
+	})
+	reg("math.Float64frombits", func(e *Engine, st *State, args []Value, fn *ssa.Function) []Outcome {
+		x := args[0].(*Term)
+		if !x.IsConst() {
+			panic(e.abort("math.Float64frombits on symbolic bits"))
+		}
+		return one(st, FloatV(math.Float64frombits(x.Val)))
+	})
+	reg("math.IsNaN", func(e *Engine, st *State, args []Value, fn *ssa.Function) []Outcome {
+		if x, ok := args[0].(FloatV); ok {
+			return one(st, e.tb.Bool(math.IsNaN(float64(x))))
+		}
+		return one(st, e.tb.False)
+	})
+	reg("math.IsInf", func(e *Engine, st *State, args []Value, fn *ssa.Function) []Outcome {
+		if x, ok := args[0].(FloatV); ok {
+			return one(st, e.tb.Bool(math.IsInf(float64(x), e.mustConcInt(args[1]))))
+		}
+		return one(st, e.tb.False)
 	})
 }
 
